@@ -8,6 +8,7 @@
 //	refreshes, control-connection kills, events, Close once / twice / from two
 //	goroutines, queries after Close).
 //
+// TestVxC17FillStorm one host; many simultaneous fill requests against a pool that just lost connections.
 // TestVxC17Race      the same scenario in a -race binary (bin/check turns a race report into a violation).
 // TestVxC17Debouncer a unit-level machine on refreshDebouncer / eventDebouncer alone
 //
@@ -695,6 +696,7 @@ type vxC17Case struct {
 	Release   bool         `json:"release"` // held queries are answered when the rest of their group is done (else never)
 	WaitHeld  bool         `json:"wait_held"`
 	Post      int          `json:"post"` // queries after Close
+	Keyspace  bool         `json:"keyspace,omitempty"` // ClusterConfig.Keyspace set: every pool connection sends USE as its first request (so hs step 2 fails the USE)
 }
 
 const (
@@ -1270,6 +1272,9 @@ func vxC17Run(c *vxC17Case, k *vstats.Case) error {
 		cfg.ConnectTimeout = vxC17Timeout
 		cfg.ConnectObserver = w
 		cfg.ReconnectInterval = time.Duration(c.Reconnect) * time.Millisecond
+		if c.Keyspace {
+			cfg.Keyspace = "ks1"
+		}
 		if c.TokenAw {
 			cfg.PoolConfig.HostSelectionPolicy = TokenAwareHostPolicy(RoundRobinHostPolicy())
 		}
@@ -1839,6 +1844,7 @@ func vxC17DrawCase(t *rapid.T, small bool) *vxC17Case {
 	c.Release = rapid.IntRange(0, 3).Draw(t, "release") != 0
 	c.WaitHeld = rapid.Bool().Draw(t, "wait_held")
 	c.Post = rapid.IntRange(1, 4).Draw(t, "post")
+	c.Keyspace = rapid.IntRange(0, 2).Draw(t, "keyspace") == 0
 	for hi := 0; hi < c.Hosts; hi++ {
 		f := vxC17Fault{}
 		if rapid.IntRange(0, 9).Draw(t, "faulty") < 3 {
@@ -1861,6 +1867,10 @@ func vxC17DrawCase(t *rapid.T, small bool) *vxC17Case {
 				f.How = "close"
 			}
 			f.K = rapid.IntRange(1, 6).Draw(t, "k")
+			if c.Keyspace && f.Kind == "hs" && rapid.Bool().Draw(t, "use_fails") {
+				// the USE that follows the handshake is answered with ERROR
+				f.Step, f.How = 2, "error"
+			}
 		}
 		c.Faults = append(c.Faults, f)
 	}
@@ -1964,6 +1974,14 @@ func vxC17Eval(ci interface{}, k *vstats.Case) error {
 	}
 	k.Class(fmt.Sprintf("hosts=%d", c.Hosts))
 	k.Class(fmt.Sprintf("numconns=%d", c.NumConns))
+	if c.Keyspace {
+		k.Class("keyspace-set")
+		for _, f := range c.Faults {
+			if f.Kind == "hs" && f.Step == 2 {
+				k.Class("use-fails-" + f.How)
+			}
+		}
+	}
 	for _, g := range c.Groups {
 		isClose := false
 		for _, a := range g {
@@ -2013,4 +2031,209 @@ func TestVxC17Race(t *testing.T) {
 		Draw: func(t *rapid.T) interface{} { return vxC17DrawCase(t, true) },
 		New:  func() interface{} { return &vxC17Case{} },
 		Run:  vxC17Eval})
+}
+
+// =============================================================================================
+// Fill storm: many fill requests for one not-full pool arriving together.
+//
+// hostConnPool.fill is called by the driver from any number of goroutines at once (every Pick on a
+// pool that is not full does `go pool.fill()`, every broken connection's HandleError does, addHost
+// and the reconnect handler do). The part releases k such requests together (spinning on a shared
+// flag, so that they arrive within nanoseconds on different processors) against a pool that has
+// just lost some or all of its connections, and checks the bound at every moment and at rest.
+
+type vxC17StormReq struct {
+	Kind string `json:"kind"` // fill | pick
+	Spin int    `json:"spin"`
+}
+
+type vxC17StormRound struct {
+	Kill int             `json:"kill"` // pool connections the node closes just before the requests (0..NumConns)
+	Reqs []vxC17StormReq `json:"reqs"`
+}
+
+type vxC17StormCase struct {
+	Proto    int               `json:"proto"`
+	NumConns int               `json:"num_conns"`
+	DialUs   int               `json:"dial_us"` // the dialer takes this long per connection
+	Rounds   []vxC17StormRound `json:"rounds"`
+}
+
+type vxC17StormDialer struct {
+	cl *vnode.Cluster
+	d  time.Duration
+}
+
+func (d *vxC17StormDialer) DialContext(ctx context.Context, network, addr string) (net.Conn, error) {
+	if d.d > 0 {
+		time.Sleep(d.d)
+	}
+	return d.cl.DialContext(ctx, network, addr)
+}
+
+func vxC17RunStorm(c *vxC17StormCase, k *vstats.Case) error {
+	if c.NumConns < 1 || c.NumConns > 8 {
+		return nil
+	}
+	cl := vnode.NewCluster(vxSpecs(1, 2))
+	node := cl.Nodes()[0]
+	cfg := vxClusterConfig(cl, c.Proto, func(cfg *ClusterConfig) {
+		cfg.Dialer = &vxC17StormDialer{cl: cl, d: time.Duration(c.DialUs) * time.Microsecond}
+		cfg.NumConns = c.NumConns
+		cfg.DisableInitialHostLookup = true
+	})
+	s, err := cfg.CreateSession()
+	if err != nil {
+		return fmt.Errorf("session against a healthy node: %v", err)
+	}
+	defer s.Close()
+	var pool *hostConnPool
+	s.pool.mu.RLock()
+	for _, p := range s.pool.hostConnPools {
+		pool = p
+	}
+	s.pool.mu.RUnlock()
+	if pool == nil {
+		return errors.New("harness: the session has no pool for its only host")
+	}
+	nc := c.NumConns
+	var viol atomic.Value
+	check := func(when string) {
+		if n := pool.Size(); n > nc && viol.Load() == nil {
+			viol.Store(fmt.Sprintf("%s: the pool holds %d connections, NumConns is %d", when, n, nc))
+		}
+		if o := node.OpenConns(); o > nc+1 && viol.Load() == nil {
+			viol.Store(fmt.Sprintf("%s: the node has %d open connections from the driver; NumConns=%d plus one control connection are allowed", when, o, nc))
+		}
+	}
+	rest := func() bool { // wait for the pool to be full and idle
+		for dl := time.Now().Add(5 * time.Second); time.Now().Before(dl); {
+			pool.mu.RLock()
+			full := len(pool.conns) >= nc && !pool.filling
+			pool.mu.RUnlock()
+			if full {
+				return true
+			}
+			check("while refilling")
+			pool.fill() // what the next Pick would trigger
+			time.Sleep(200 * time.Microsecond)
+		}
+		return false
+	}
+	if !rest() {
+		return nil // not a verdict of this part (kill recovery is judged by the Session part)
+	}
+	check("after session creation")
+	maxReq := 0
+	for ri, r := range c.Rounds {
+		if viol.Load() != nil {
+			break
+		}
+		// the node closes some pool connections
+		killed := 0
+		pool.mu.RLock()
+		victims := append([]*Conn(nil), pool.conns...)
+		pool.mu.RUnlock()
+		for _, sc := range node.Conns() {
+			if killed >= r.Kill {
+				break
+			}
+			for _, v := range victims {
+				if vc, ok := v.conn.(*vnode.Conn); ok && sc.Client == vc && !sc.C.Closed() {
+					sc.Close()
+					killed++
+					break
+				}
+			}
+		}
+		if killed > 0 {
+			// wait until the driver noticed at least one of them (the pool is not full any more)
+			for dl := time.Now().Add(2 * time.Second); pool.Size() >= nc && time.Now().Before(dl); {
+				runtime.Gosched()
+			}
+		}
+		var flag int32
+		var ready, wg sync.WaitGroup
+		for _, q := range r.Reqs {
+			q := q
+			ready.Add(1)
+			wg.Add(1)
+			go func() {
+				defer wg.Done()
+				ready.Done()
+				for atomic.LoadInt32(&flag) == 0 {
+				}
+				vxSpin(q.Spin)
+				if q.Kind == "pick" {
+					pool.Pick()
+				} else {
+					pool.fill()
+				}
+			}()
+		}
+		if len(r.Reqs) > maxReq {
+			maxReq = len(r.Reqs)
+		}
+		ready.Wait()
+		atomic.StoreInt32(&flag, 1)
+		done := make(chan struct{})
+		go func() { wg.Wait(); close(done) }()
+	wait:
+		for {
+			select {
+			case <-done:
+				break wait
+			default:
+				check("round " + itoa(ri) + ", requests running")
+				time.Sleep(50 * time.Microsecond)
+			}
+		}
+		if !rest() {
+			k.Class("storm-not-refilled")
+			break
+		}
+		// fillers that lost the race may still be connecting: give them the time of a few dials
+		for i := 0; i < 20; i++ {
+			check("round " + itoa(ri) + ", at rest")
+			time.Sleep(time.Duration(c.DialUs)*time.Microsecond/4 + 100*time.Microsecond)
+		}
+		if killed > 0 && len(r.Reqs) >= 2 {
+			k.NonTrivial()
+		}
+	}
+	k.Class(fmt.Sprintf("storm-numconns=%d", nc))
+	k.Class(fmt.Sprintf("storm-maxreq=%d", maxReq))
+	if v := viol.Load(); v != nil {
+		return errors.New(v.(string))
+	}
+	return nil
+}
+
+const vxC17StormRule = "a real Session on one scripted host (NumConns 1-4, dial taking 0-2 ms); per round the node closes 0..NumConns pool connections and 1-12 fill requests (hostConnPool.fill, as HandleError / addHost issue it, or hostConnPool.Pick, which issues it on a not-full pool) are released together from spinning goroutines; pool.Size() <= NumConns and node-side open connections <= NumConns+1 are sampled every 50 us while they run and 20 times at rest; non-trivial = a round with a kill and at least two simultaneous requests; distinct by the whole plan"
+
+func TestVxC17FillStorm(t *testing.T) {
+	if runtime.GOMAXPROCS(0) < 4 {
+		runtime.GOMAXPROCS(4)
+	}
+	vx.Check(t, vx.Prop{ID: "C17", Part: "TestVxC17FillStorm", Rule: vxC17StormRule,
+		Draw: func(t *rapid.T) interface{} {
+			c := &vxC17StormCase{Proto: rapid.SampledFrom([]int{4, 3}).Draw(t, "proto")}
+			c.NumConns = rapid.IntRange(1, 4).Draw(t, "num_conns")
+			c.DialUs = rapid.SampledFrom([]int{0, 100, 500, 2000}).Draw(t, "dial_us")
+			for i, n := 0, rapid.IntRange(1, 4).Draw(t, "rounds"); i < n; i++ {
+				r := vxC17StormRound{Kill: rapid.IntRange(0, c.NumConns).Draw(t, "kill")}
+				if rapid.Bool().Draw(t, "kill_all") {
+					r.Kill = c.NumConns
+				}
+				for j, m := 0, rapid.IntRange(1, 12).Draw(t, "reqs"); j < m; j++ {
+					r.Reqs = append(r.Reqs, vxC17StormReq{
+						Kind: rapid.SampledFrom([]string{"fill", "fill", "pick"}).Draw(t, "req"),
+						Spin: rapid.SampledFrom([]int{0, 0, 0, 1, 3}).Draw(t, "spin")})
+				}
+				c.Rounds = append(c.Rounds, r)
+			}
+			return c
+		},
+		New: func() interface{} { return &vxC17StormCase{} },
+		Run: func(ci interface{}, k *vstats.Case) error { return vxC17RunStorm(ci.(*vxC17StormCase), k) }})
 }
